@@ -1,6 +1,7 @@
 """Delegation workload shared by C05 / C06 / C13."""
 import copy
 
+from . import hostile
 from ..gen import entries as gentries, jsonvals, keys as gkeys, metadata as gmd
 from ..monitors import boundary
 from ..refs import canonjson, models
@@ -226,7 +227,10 @@ def evaluate(case, lib, fn=None):
     model, failed = models.delegation_verdict(role, untrusted, trusted, gpg)
     before = boundary.fingerprint([role, untrusted, trusted])
     f = fn or lib.authentication.verify_delegation
-    out = boundary.call(lib, f, role, untrusted, trusted, gpg=gpg)
+    with hostile.stdout(case.get("stdout")) as hs:
+        out = boundary.call(lib, f, role, untrusted, trusted, gpg=gpg)
+    case["_stdout_write_attempts"] = hs.attempts
+    model = hostile.adjust(model, case.get("stdout"))
     mutated = boundary.fingerprint([role, untrusted, trusted]) != before
     return model, failed, out, mutated
 
